@@ -201,6 +201,14 @@ theorem getIoValLast_ne {db : Db} (hinv : Inv db) (k : Bytes) : getIoValLast db 
         cases r' <;> simp
         split <;> simp
 
+theorem eraseKeys_sublist (db : Db) (es : Db) : (eraseKeys db es).Sublist db := by
+  induction es generalizing db with
+  | nil => exact List.Sublist.refl _
+  | cons e es ih => exact (ih _).trans (erase_sublist db _)
+
+theorem topItems_sublist (db : Db) (top : Bytes) : (topItems db top).Sublist db :=
+  (List.takeWhile_sublist _).trans (setRange_sublist db top)
+
 /-- ONE STEP, no guard: the database stays well-formed and the method does not raise ValueError -/
 theorem step_good {kind : Kind} (hkind : kind ≠ .plain) {db : Db} (hinv : Inv db) (op : Op) :
     Inv (step kind db op).1 ∧ (step kind db op).2 ≠ .raise .valueError := by
@@ -230,6 +238,10 @@ theorem step_good {kind : Kind} (hkind : kind ≠ .plain) {db : Db} (hinv : Inv 
       obtain ⟨hs, h⟩ := scanKey_ok hinv k; simp [cntIoVals, getIoVals, h]
     case cntAll => exact ⟨hinv, by simp⟩
     case items => obtain ⟨r, h⟩ := ioItems_ok hinv.wf; exact liftRo_good hinv _ hp (by simp [h])
+    case itemsTop top =>
+      obtain ⟨r, h⟩ := ioItems_ok (hinv.sub (topItems_sublist db top)).wf; exact liftRo_good hinv _ hp (by simp [h])
+    case fullItems top => exact ⟨hinv, by simp⟩
+    case trim top => exact ⟨hinv.sub (eraseKeys_sublist _ _), by simp⟩
   | ioset =>
     cases op <;> simp only [step]
     case put => exact ⟨hinv, by simp⟩
@@ -252,6 +264,10 @@ theorem step_good {kind : Kind} (hkind : kind ≠ .plain) {db : Db} (hinv : Inv 
       obtain ⟨hs, h⟩ := scanKey_ok hinv k; simp [cntIoVals, getIoVals, h]
     case cntAll => exact ⟨hinv, by simp⟩
     case items => obtain ⟨r, h⟩ := ioItems_ok hinv.wf; exact liftRo_good hinv _ hp (by simp [h])
+    case itemsTop top =>
+      obtain ⟨r, h⟩ := ioItems_ok (hinv.sub (topItems_sublist db top)).wf; exact liftRo_good hinv _ hp (by simp [h])
+    case fullItems top => exact ⟨hinv, by simp⟩
+    case trim top => exact ⟨hinv.sub (eraseKeys_sublist _ _), by simp⟩
 
 theorem run_good {kind : Kind} (hkind : kind ≠ .plain) (watch : List Bytes) : ∀ (ops : List Op) (db : Db), Inv db →
     Inv (run kind watch db ops).2 ∧ ∀ x ∈ (run kind watch db ops).1, x.1 ≠ .raise .valueError
